@@ -56,6 +56,25 @@ def canonical_order(table, ns):
     return order
 
 
+def unit_factors(expr):
+    """sympy unit expression -> [(symbol, Fraction)] (coefficient must be 1), sorted by symbol"""
+    import sympy
+    from fractions import Fraction
+
+    coeff, rest = sympy.sympify(expr).as_coeff_Mul()
+    if coeff != 1:
+        raise ValueError(f"unit expression with a coefficient: {expr}")
+    out = []
+    for base, p in rest.as_powers_dict().items():
+        if base == 1:
+            continue
+        p = sympy.Rational(p)
+        if not isinstance(base, sympy.Symbol):
+            raise ValueError(f"non-symbol factor {base!r} in {expr}")
+        out.append((str(base), Fraction(int(p.p), int(p.q))))
+    return sorted(out)
+
+
 def row_of(X, q):
     import numpy as np
 
@@ -77,11 +96,14 @@ def generate(X):
     for name, (value, unit_name, aliases) in table.items():
         u = Unit(unit_name, registry=reg)
         vec = X.dim_vec(u.dimensions)
+        fs = unit_factors(u.expr)
         crow.append(
             f"  ⟨⟨{X.lstr(name)}, [" + ", ".join(X.lstr(a) for a in aliases) + f"], {X.ldim(vec)}, {X.lstr(unit_name)}⟩, "
-            f"{X.bits(float(value))}, {X.bits(float(u.base_value))}⟩"
+            f"{X.bits(float(value))}, {X.bits(float(u.base_value))}, ["
+            + ", ".join(f"({X.lstr(sym)}, {X.lrat(q)})" for sym, q in fs) + "]⟩"
         )
-        jconst[name] = [X.bits(float(value)), X.bits(float(u.base_value)), X.jdim(vec), unit_name, list(aliases)]
+        jconst[name] = [X.bits(float(value)), X.bits(float(u.base_value)), X.jdim(vec), unit_name, list(aliases),
+                        [[sym, str(q)] for sym, q in fs]]
     em = []
     for (uname, dims), (_d2, _u2, _f) in em_conversions.items():
         em.append(f"  ({X.lstr(uname)}, {X.ldim(X.dim_vec(dims))})")
@@ -101,7 +123,9 @@ def generate(X):
         X.header("UnytModel.PhysicalConstants")
         + "namespace Unyt.Generated\n\n"
         + "/-- a row of `physical_constants` with the bits of its value and of the SI scale of its unit -/\n"
-        + "structure ConstRow where\n  spec : ConstSpec\n  value : Nat\n  unitScale : Nat\n\n"
+        + "structure ConstRow where\n  spec : ConstSpec\n  value : Nat\n  unitScale : Nat\n"
+        + "  /-- the unit string as a product of powers of unit symbols (sympy's reading of it) -/\n"
+        + "  unitFactors : List (String × Rat)\n\n"
         + "/-- a materialised constant: name in its namespace, bits of the value, bits of the unit's SI scale, dimension -/\n"
         + "structure MatRow where\n  name : String\n  value : Nat\n  scale : Nat\n  dim : Dim\n\n"
         + "/-- `unyt._unit_lookup_table.physical_constants` -/\n"
